@@ -3,9 +3,9 @@ SPECIFICATION FairSpec
 CONSTANTS
   ReqTypes <- TypesAll
   NItems = 1
-  MaxAnswers = 2
+  MaxAnswers = 1
   Chains <- ChainsAll
-  NPeers = 2
+  NPeers = 1
   BlockStores <- StoresLight
   ClearOnFail = TRUE
   FreshDecode = FALSE
